@@ -24,7 +24,7 @@
    [input_lex ss] (Proofs/PrintLexInput.v) says what the parser guarantees of every journal it has
    read: years 0000..9999; account segments and commodities are non-empty runs of Unicode letters
    and digits; descriptions are valid UTF-8 without a double quote; a transaction has a booking,
-   an assertion a balance; an @accrue annotation has such an account and period ends within years
+   an assertion a balance; an @accrue annotation has such an account and a window within years
    0000..9999.  It is satisfiable (C09_input_lex_example: the journal of C09_example).
 
    HOW (each closed under the global context):
@@ -50,10 +50,7 @@
          is a total preorder and the sort idempotent (C09_sort_idem).
          Proofs/PrintRegroup.v, TxnOrder.v, PrintNormal.v, PrintReportsDirect.v.
    NOT PROVED / weaker than one might wish:
-     - for failing balance runs only "both fail" ([~]), not the same error;
-     - for @accrue, input_lex asks directly that the period ends of the window lie in years
-       0000..9999 (a consequence of start and end lying there, but no monotonicity lemma for
-       year_of is available).
+     - for failing balance runs only "both fail" ([~]), not the same error.
    Kept from before: layer 0 (the pinned printer is refuted; the repaired one passes on the
    witness and on a worked example, vm_compute through the model's parser), layer 1 (per
    directive at the model level), the model-level statements on [denote], and the exact
